@@ -37,7 +37,14 @@ def fmtPS (s : PS Nat Nat) : String :=
 /-- internal generator steps (`get`, `flush`) are not observable: take them when needed -/
 def internal (c : Cfg) (xs : List (Outcome Nat Nat)) (tail : Option Nat) (s : PS Nat Nat) : Option (PS Nat Nat) :=
   match s.pc with
-  | .waitLoop | .waitFlush => step? c xs tail id s .get
+  | .waitLoop | .waitFlush =>
+    match step? c xs tail id s .get with
+    | some s' => some s'
+    | none =>
+      -- the oldest task could not even be sent to a worker: it fails without start/finish events
+      match s.cache with
+      | (i, .queued) :: _ => (step? c xs tail id s (.finish i)).bind fun s' => step? c xs tail id s' .get
+      | _ => none
   | .flushHead => step? c xs tail id s .flush
   | _ => none
 
